@@ -732,6 +732,14 @@ def directed():
         ("arg", [('i', 2), ('str', "\u00e9b", None), W]), ("arg", [('i', 2), ('str', "\u2192\u00e9c", X), W]),
         ("arg", [('i', 1), ('str', "\u2192b", None), W]), ("copy", [s('f', ('str', "\u00e9\u2192", X), X), W]),
         ("copy", [s('f', ('sh', 'S1', ('lst', [a, X], Y)), ('sh', 'S1', ('lst', [a, X], Y)), Y), W]),
+        ("copy", [s('f', ('lst', [a], X), X), W], [("V0", ('lst', [b, ('a', 'c')], None))]),
+        ("copy", [s('f', X, ('lst', [a], X)), W], [("V0", ('lst', [b, ('a', 'c')], None))]),
+        ("copy", [s('f', ('lst', [X], Y), X, Y), W], [("V0", s('g', Z)), ("V1", ('lst', [b], None))]),
+        ("copy", [s('f', ('str', "ab", X), X), W], [("V0", ('str', "cd", None))]),
+        ("copy", [s('f', s('g', X, Y), Y, X), W], [("V0", ('lst', [b], Z)), ("V1", s('h', Z, Z))]),
+        ("tvars", [s('f', ('lst', [a], X), X, Y), W], [("V0", ('lst', [Z, Y], None))]),
+        ("arg", [('i', 2), ('lst', [a], X), W], [("V0", ('lst', [b], None))]),
+        ("univ", [('lst', [a], X), W], [("V0", ('lst', [b], None))]),
         ("copy", [s('f', ('sh', 'S1', ('str', "ab", X)), ('sh', 'S1', ('str', "ab", X)), X), W]),
         ("copy", [s('f', ('sh', 'S1', s('g', X, Y)), ('sh', 'S1', s('g', X, Y)), ('lst', [('sh', 'S1', s('g', X, Y))], X)), W]),
         ("arg", [('i', 1), s('f', s('g', X)), X]), ("arg", [('i', 1), s('f', X), X]), ("arg", [('i', 1), s('f', X, Y), Y]),
@@ -799,18 +807,46 @@ def sanitize(t):
     return t
 
 
-def make_case(cid, op, args):
+LATE_VALUES = [('lst', [('a', 'b'), ('a', 'c')], None), ('str', "bc", None), ('lst', [('i', 1)], ('v', 'U0')),
+               ('s', 'g', [('v', 'U0'), ('a', 'a')]), ('a', 'z'), ('i', 7), ('v', 'U1'), ('str', "b", ('v', 'U0')),
+               ('lst', [('v', 'U0'), ('v', 'U0')], None), nil()]
+
+
+def gen_late(rng, args):
+    """late bindings: some variables of the argument terms are bound AFTER the terms have been built
+    (so the argument holds a reference to a variable cell that lives inside a structure or list and
+    is bound by the time the builtin runs)."""
+    vs = []
+    for a in args:
+        tree_vars(expand(a), vs)
+    vs = [v for v in vs if v.startswith("V")]
+    rng.shuffle(vs)
+    return [(v, rng.choice(LATE_VALUES)) for v in vs[:rng.choice([1, 1, 2])]]
+
+
+def make_case(cid, op, args, late=()):
     args = [sanitize(a) for a in args]
-    trees = [expand(a) for a in args]
+    late = [(v, sanitize(t)) for v, t in late]
+    sub = {v: expand(t) for v, t in late}
+    trees = [tree_subst(expand(a), sub) for a in args]
+    if late and any(unprintable(t) for t in trees):
+        # the bound argument would be printed with the answer: keep the case without late bindings
+        return make_case(cid, op, args)
     vs = []
     for t in trees:
         tree_vars(t, vs)
     vs = sorted(vs)
     rd = Render()
     texts = [rd.pl(a) for a in args]
+    pre = []
+    if late:
+        # build the arguments first, then bind
+        names = ["A%d" % (j + 1) for j in range(len(texts))]
+        pre = ["%s = %s" % (n, t) for n, t in zip(names, texts)] + ["%s = %s" % (v, rd.pl(t)) for v, t in late]
+        texts = names
     goal = GOAL[op] % tuple(texts)
     rterm = "r(S%s)" % "".join("," + v for v in vs)
-    q = ", ".join(rd.prelude + ["catch((%s, S = ok), error(E,_), S = err(E))" % goal, "R = %s" % rterm]) + "."
+    q = ", ".join(rd.prelude + pre + ["catch((%s, S = ok), error(E,_), S = err(E))" % goal, "R = %s" % rterm]) + "."
     rcanon = "'r'(%s)" % ",".join(vs) if vs else "'r'"
     return {
         "id": cid, "op": op, "prolog": q, "args": [canon(t) for t in trees], "size": sum(tree_size(t) for t in trees),
@@ -910,9 +946,11 @@ def run(ctx):
         bag = [op for op, w in weights.items() for _ in range(w)]
         for _ in range(n):
             op = rng.choice(bag)
-            specs.append((op, GEN[op](rng)))
-        for i, (op, args) in enumerate(specs):
-            cases.append(make_case("c%d" % i, op, args))
+            a = GEN[op](rng)
+            specs.append((op, a, gen_late(rng, a)) if rng.random() < (0.35 if op in ("copy", "tvars", "ground") else 0.15)
+                         else (op, a))
+        for i, sp in enumerate(specs):
+            cases.append(make_case("c%d" % i, *sp))
     impl, model = diff.run_cases(cases)
     retried = 0
     for c in cases:
